@@ -79,3 +79,55 @@ Definition c01_counts (tr : trace) : nat * nat * nat * nat :=
     | KLbNew _ _ => (a, b, c, S d)
     | _ => (a, b, c, d)
     end) tr (0, 0, 0, 0).
+
+(** ** The timeout side (monitor only; the timing view belongs to C17)
+
+    [c01_deadline_ok check_fail tr]: a deploy's wait ends no later than its
+    deadline (creation time of the balancer + deploy timeout, from KParams); it
+    succeeds only if every target had a successful probe result by then; and
+    (when [check_fail]: scenarios that do not park probe goroutines between the
+    result and the rotation rebuild) it fails only at the deadline and only if
+    some target had no successful probe result strictly before it. *)
+Record dlmon := mkDl {
+  d_to : list (nat * N);                   (* command -> deploy timeout *)
+  d_lbs : list (nat * (N * list nat));     (* balancer -> deadline, targets *)
+  d_first : list (nat * N)                 (* target -> time of its first successful probe result *)
+}.
+
+Definition dl_step (check_fail : bool) (m : dlmon) (e : event) : option dlmon :=
+  match e_k e with
+  | KParams c dt _ _ => Some (mkDl (nset (d_to m) c dt) (d_lbs m) (d_first m))
+  | KLbNew lb ts =>
+    match e_by e with
+    | ACmd c =>
+      match nget (d_to m) c with
+      | Some dt => Some (mkDl (d_to m) (nset (d_lbs m) lb ((e_t e + dt)%N, ts)) (d_first m))
+      | None => Some m
+      end
+    | _ => Some m
+    end
+  | KProbeApply t true _ _ =>
+    match nget (d_first m) t with
+    | Some _ => Some m
+    | None => Some (mkDl (d_to m) (d_lbs m) (nset (d_first m) t (e_t e)))
+    end
+  | KDeployWaited lb ok =>
+    match nget (d_lbs m) lb with
+    | None => Some m
+    | Some (dl, ts) =>
+      if ok then
+        if N.leb (e_t e) dl && forallb (fun t => match nget (d_first m) t with Some x => N.leb x dl | None => false end) ts
+        then Some m else None
+      else
+        if negb check_fail
+           || (N.eqb (e_t e) dl && existsb (fun t => match nget (d_first m) t with Some x => N.leb dl x | None => true end) ts)
+        then Some m else None
+    end
+  | _ => Some m
+  end.
+
+Definition c01_deadline_ok (check_fail : bool) (tr : trace) : bool :=
+  match run (dl_step check_fail) (mkDl [] [] []) tr with Some _ => true | None => false end.
+
+Definition c01_deadline_fail_at (check_fail : bool) (tr : trace) : option nat :=
+  first_reject (dl_step check_fail) (mkDl [] [] []) tr 0.
